@@ -275,7 +275,18 @@ func (r *runner) buildTaskInfo() mesos.TaskInfo {
 			args[i] = shellQuote(args[i])
 		}
 	}
+	// the control mode is read without regard to case (controlmode.UnmarshalText, also the task class
+	// loader's): two cases out of five spell it in capitals / mixed case
 	mode := c.Kind
+	switch c.Idx % 5 {
+	case 1:
+		mode = strings.ToUpper(mode)
+	case 3:
+		mode = map[string]string{"fairmq": "FairMQ", "direct": "Direct", "basic": "Basic", "hook": "Hook"}[mode]
+	}
+	if mode != c.Kind {
+		r.rec(Rec{Ev: "mode-spelling", Msg: mode})
+	}
 	tci := map[string]interface{}{
 		"env": []string{tokenVar + "=" + c.Token, pidfileVar + "=" + filepath.Join(c.Dir, "pids"),
 			"VERIF_C17_STATELOG=" + filepath.Join(c.Dir, "statelog")},
